@@ -37,6 +37,14 @@ Proof.
     + intro H. split; [apply H; left; reflexivity|intros x Hx; apply H; right; exact Hx].
 Qed.
 
+Definition AllP2 {X Y} (P : X -> Y -> Prop) : list X -> list Y -> Prop :=
+  fix go (l : list X) (m : list Y) : Prop :=
+    match l, m with
+    | [], [] => True
+    | x :: l', y :: m' => P x y /\ go l' m'
+    | _, _ => False
+    end.
+
 Definition intrinsic (d : details) : bool :=
   match d with DOption _ | DVec _ | DMap _ _ | DUnit => true | _ => false end.
 
@@ -88,6 +96,7 @@ Section Shape.
                           | Some (SBool _) => has vid DJsonValue
                           | Some sa => sh sa vid
                           end
+      | KTuple => exists ts, has t (DTuple ts) /\ AllP2 sh items ts
       | KVec c => exists i, has t (seq_det c i) /\ match items with [it] => sh it i | _ => False end
       | KVecAny c => exists i, has t (seq_det c i) /\ has i DJsonValue
       | KRef r => ref_id D r = Some t /\ exists d, has t d /\ det_name d <> None
@@ -128,6 +137,7 @@ Section Ok.
     | DEnum _ _ TagExternal vs _ _ => forall v, In v vs -> v_det v = VSimple
     | DOption t => idok look t /\ forall e, look t = Some e -> not_option e
     | DVec t | DSet t | DArray t _ => idok look t
+    | DTuple ts => forall t, In t ts -> idok look t
     | DMap k v => (exists e, look k = Some e /\ e_det e = DString) /\ idok look v
     | DNewtype _ _ t c => match c with CNone | CString _ _ _ => idok look t | _ => False end
     | DUnit | DBoolean | DInteger _ | DFloat _ | DString | DJsonValue => True
@@ -158,7 +168,7 @@ Section Ok.
     det_ok look d -> det_ok look' d.
   Proof.
     intros Hm Hdef.
-    destruct d as [? ? tag ? ? ?|? ? ? ?|? ? t c|? ? ?|t|?|t|? ?|t|t ?|?| | |?|?| | |?];
+    destruct d as [? ? tag ? ? ?|? ? ? ?|? ? t c|? ? ?|t|?|t|? ?|t|t ?|ts| | |?|?| | |?];
       cbn [det_ok]; try exact (fun H => H).
     - intros [H1 H2]. split; [exact H1|]. intros p Hp. eapply idok_mono; [exact Hm|apply H2; exact Hp].
     - destruct c; try exact (fun H => H); apply idok_mono; exact Hm.
@@ -171,6 +181,7 @@ Section Ok.
       eapply idok_mono; eassumption.
     - apply idok_mono. exact Hm.
     - apply idok_mono. exact Hm.
+    - intros H t Ht. eapply idok_mono; [exact Hm|exact (H t Ht)].
   Qed.
 
   Lemma te_ok_mono look look' d :
@@ -471,6 +482,42 @@ Section ShapeMain.
     split; [intros n Hn; exact (Hns1 n Hn)|]. split; [exact Hg1|]. split; [exact Hid1|exact Hr1].
   Qed.
 
+  Lemma conv_items_shape nm : forall items,
+    Forall SP items -> forallb (frag cls keys) items = true ->
+    forall i s0 ts s1,
+    conv_items cvf nm i items s0 = Some (ts, s1) -> wf s0 -> nD < st_next s0 -> ents_ok nD (lk s0) ->
+    NoDup (idx_names cls nm items i) ->
+    (forall n, In n (idx_names cls nm items i) -> ~ In n (nkeys s0)) ->
+    wf s1 /\ frame s0 s1 /\ names_sub s0 s1 (idx_names cls nm items i) /\ ents_ok nD (lk s1) /\
+    (forall t, In t ts -> idok nD (lk s1) t) /\
+    forall T, ext s1 T -> DefsNamed T -> AllP2 (shape cls D T) items ts.
+  Proof.
+    induction items as [|it items IH]; intros HP Hf i s0 ts s1 Hc Hw Hnx Hg Hnd Hfr.
+    - cbn [conv_items] in Hc. injection Hc as <- <-.
+      split; [exact Hw|]. split; [apply frame_refl|]. split; [apply names_sub_refl|]. split; [exact Hg|].
+      split; [intros t []|intros T _ _; exact I].
+    - cbn [conv_items] in Hc. cbn [idx_names] in Hnd, Hfr.
+      destruct (cvf it (idx_name nm i) s0) as [[te sa]|] eqn:Hcv; [|discriminate].
+      destruct (assign te sa) as [t sb] eqn:Ha.
+      destruct (conv_items cvf nm (S i) items sb) as [[ts' sc]|] eqn:Hr; [|discriminate].
+      injection Hc as <- <-.
+      cbn [forallb] in Hf. apply andb_true_iff in Hf. destruct Hf as [Hf1 Hf2].
+      destruct (SP_assign _ (Forall_inv HP) Hf1 _ _ _ _ _ _ Hcv Ha Hw Hnx Hg (NoDup_app_l _ _ Hnd))
+        as [Hwb Hfb Hnsb Hgb Hidb HSb].
+      { intros n Hn. apply Hfr. apply in_or_app. left. exact Hn. }
+      assert (Hnxb : nD < st_next sb) by (destruct Hfb as [Hx _]; lia).
+      destruct (IH (Forall_inv_tail HP) Hf2 (S i) sb ts' sc Hr Hwb Hnxb Hgb (NoDup_app_r _ _ Hnd))
+        as (Hwc & Hfc & Hnsc & Hgc & Hidc & HSc).
+      { intros n Hn Hin. destruct (Hnsb n Hin) as [H|H].
+        - apply (Hfr n); [apply in_or_app; right; exact Hn|exact H].
+        - exact (NoDup_app_disj _ _ n Hnd H Hn). }
+      split; [exact Hwc|]. split; [eapply frame_trans; eassumption|]. split.
+      + cbn [idx_names]. eapply names_sub_trans; eassumption.
+      + split; [exact Hgc|]. split.
+        * intros t0 [<-|Ht0]; [exact (idok_mono nD _ _ _ (frame_mono sb sc Hwb Hfc) Hidb)|exact (Hidc t0 Ht0)].
+        * intros T He Hp. cbn [AllP2]. split; [apply HSb; [exact (ext_frame sb sc T Hwb Hfc He)|exact Hp]|exact (HSc T He Hp)].
+  Qed.
+
   Lemma str_assigned (pat : option ustring) s0 i s1 :
     assign DString (match pat with Some _ => set_regress s0 | None => s0 end) = (i, s1) ->
     wf s0 -> nD < st_next s0 -> ents_ok nD (lk s0) ->
@@ -502,7 +549,7 @@ Section ShapeMain.
     KSPost items props req ap k nm' s0 te s1.
   Proof.
     intros Hc Hw Hnx Hg Hnd Hfr.
-    destruct k as [| | | |mx mn pat|r|raws|deny| |c|c|r|]; cbn [conv_kind] in Hc.
+    destruct k as [| | | |mx mn pat|r|raws|deny| | |c|c|r|]; cbn [conv_kind] in Hc.
     - injection Hc as <- <-. apply scalar_kspost; try reflexivity; try assumption; try exact I. intros T t H; exact H.
     - injection Hc as <- <-. apply scalar_kspost; try reflexivity; try assumption; try exact I. intros T t H; exact H.
     - injection Hc as <- <-. apply scalar_kspost; try reflexivity; try assumption; try exact I. intros T t H; exact H.
@@ -596,6 +643,14 @@ Section ShapeMain.
         apply (Hfin s3 vid Hw3 Hf3 Hg3 Hid3).
         * cbn [sub_names]. exact Hns3.
         * intros T He Hp. exact (get_det_of _ _ _ _ (He _ _ Hl3)).
+    - (* KTuple *)
+      destruct (conv_items cvf nm' 0 items s0) as [[ts s1']|] eqn:Hci; [|discriminate]. injection Hc as <- <-.
+      cbn [frag_kind] in Hfk. cbn [own_names sub_names app] in Hnd, Hfr.
+      destruct (conv_items_shape nm' items IHitems Hfk 0%nat s0 ts s1' Hci Hw Hnx Hg Hnd Hfr)
+        as (Hw1 & Hf1 & Hns1 & Hg1 & Hid1 & HS1).
+      split; [exact Hw1|exact Hf1|reflexivity|exact Hns1|exact Hg1|exact Hid1|exact I|].
+      intros T He Hp t Hr. cbn [realizes] in Hr. apply get_det_of in Hr. cbn [kshape].
+      exists ts. split; [exact Hr|exact (HS1 T He Hp)].
     - (* KVec *)
       destruct items as [|it [|it2 items']]; try discriminate.
       destruct (cvf it (seq_item_name cls c nm') s0) as [[tei s2]|] eqn:Hcv; [|discriminate].
